@@ -42,7 +42,8 @@ VARS = ["V", "W"]
 
 LEGACY = {"${UPS_PROD_DIR}": "${PRODUCT_DIR}", "${UPS_DB}": "${PRODUCTS}", "${UPS_UPS_DIR}": "${UPS_DIR}",
           "${UPS_PROD_FLAVOR}": "${PRODUCT_FLAVOR}"}
-MACROS = list(LEGACY) + ["${PRODUCT_DIR}", "$?{PRODUCT_DIR}", "${PRODUCT_DIR_EXTRA}", "$?{PRODUCT_DIR_EXTRA}", "${PRODUCTS}", "${NAME_DIR}",
+EPREFS = ["${EUPS_PATH[0]}", "${EUPS_PATH[1]}", "${EUPS_PATH[7]}", "${EUPS_PATH[01]}"]
+MACROS = list(LEGACY) + EPREFS + ["${PRODUCT_DIR}", "$?{PRODUCT_DIR}", "${PRODUCT_DIR_EXTRA}", "$?{PRODUCT_DIR_EXTRA}", "${PRODUCTS}", "${NAME_DIR}",
           "${PRODUCT_FLAVOR}", "${PRODUCT_NAME}", "${PRODUCT_VERSION}", "${UPS_DIR}"]
 
 
@@ -52,7 +53,8 @@ def gen_product(rng):
             "flavor": rng.choice(["Linux64", "Linux64", "Linux64", None]),
             "dir": rng.choice(["/opt/p/1.0", "/opt/p/1.0", "/opt/p/1.0", "none", None, "$S/local dir"]),
             "db": rng.choice(["stack", "stack", "flat"]),
-            "via": rng.choice(["file", "inject"])}
+            "via": rng.choice(["file", "inject"]),
+            "eups_path": rng.choice([["$S/st", "/other/stack"], ["$S/st", "/other/stack"], ["/one"], None])}
 
 
 def macro_text(prod, m):
@@ -190,6 +192,8 @@ def gen_case(rng):
         case["product"] = prod
         if rng.random() < 0.3:
             env[prod["name"].upper() + "_DIR"] = "/was/set"
+    if rng.random() < 0.1:
+        case["noaction"] = True         # Action.execute does not look at it: nothing may change
     if force or rng.random() < 0.2:
         case["force"] = force
         case["oldenv"] = {v: rng.choice([env.get(v), "other", None]) for v in VARS if rng.random() < 0.7}
@@ -223,6 +227,8 @@ def resolve_product(prod, root):
     sroot = os.path.dirname(db) if prod["db"] == "stack" else db
     pdir = prod["dir"].replace("$S", root) if prod["dir"] else prod["dir"]
     info = {"root": sroot, "dir": pdir, "name": prod["name"], "flavor": prod["flavor"], "version": prod["version"], "db": db}
+    ep = prod.get("eups_path", ["$S/st"])
+    info["eupsPath"] = None if ep is None else ":".join(x.replace("$S", root) for x in ep)
     if prod["flavor"] is not None:
         info["extraDir"] = os.path.join(db, prod["flavor"], prod["name"], prod["version"])
         info["extraExists"] = os.path.isdir(info["extraDir"])
@@ -300,6 +306,16 @@ def build_actions(case, e):
     info["via"] = prod["via"] if file_safe(case) else "inject"
     p = Product(prod["name"], prod["version"], prod["flavor"], dir=info["dir"], table=tfile, db=info["db"])
     pdirvar = prod["name"].upper() + "_DIR"
+    if info["eupsPath"] is None:        # (run_impl puts the harness's own EUPS_PATH back when the case is over)
+        os.environ.pop("EUPS_PATH", None)
+    else:
+        os.environ["EUPS_PATH"] = info["eupsPath"]
+    return _build(case, p, pdirvar, info, tfile, tdir, mk)
+
+
+def _build(case, p, pdirvar, info, tfile, tdir, mk):
+    from eups.table import Table
+    prod, acts, root = case["product"], case["acts"], os.path.dirname(os.path.dirname(tdir))
     if info["via"] == "file":
         os.makedirs(tdir)
         with open(tfile, "w") as f:
@@ -332,6 +348,17 @@ def snapshot(e):
 def run_impl(case):
     """Execute the case's actions on the real code; returns (the outcome after every action, resolved product)."""
     e = _eups()
+    saved = os.environ.get("EUPS_PATH")
+    try:
+        return _run_impl(case, e)
+    finally:
+        if saved is None:
+            os.environ.pop("EUPS_PATH", None)
+        else:
+            os.environ["EUPS_PATH"] = saved
+
+
+def _run_impl(case, e):
     prod = case.get("product")
     clean = ["V", "W", "FOO", "BAR", "PRODUCT_DIR", "PRODUCT_DIR_EXTRA", "PRODUCTS", "UPS_DIR", "PRODUCT_FLAVOR",
              "PRODUCT_NAME", "PRODUCT_VERSION"] + [n.upper() + "_DIR" for n in ("prod", "my-p", "P2x")]
@@ -339,6 +366,7 @@ def run_impl(case):
         os.environ.pop(k, None)
     os.environ.update(case["env"])
     e.force = bool(case.get("force"))
+    e.noaction = bool(case.get("noaction"))
     e.oldEnviron = dict(case.get("oldenv", {}))
     e.aliases = dict(case.get("aliases", {}))
     e.oldAliases = dict(case.get("oldaliases", {}))
@@ -386,6 +414,9 @@ def model_requests(case, info=None):
     acts = case["acts"]
     if info is not None:
         base["product"] = {k: info[k] for k in ("root", "dir", "extraDir", "extraExists", "name", "flavor", "version", "upsDir")}
+        base["eupspath"] = info["eupsPath"]
+        if info["eupsPath"] is not None:
+            base["env"] = dict(case["env"], EUPS_PATH=info["eupsPath"])
         base["fromfile"] = info["via"] == "file"
     reqs = []
     for i in range(len(acts)):
@@ -433,6 +464,15 @@ def resolve_den(den, info, case, delim):
         return ("unspecified",)
     m, tail = den[1], den[2]
     opt, key = m.startswith("$?"), m.strip("$?{}")
+    if m in EPREFS:         # a subscripted reference to $EUPS_PATH: that element; refused when EUPS_PATH is not set
+        if info["eupsPath"] is None:
+            return ("error",)
+        els = info["eupsPath"].split(":")
+        i = int(m[len("${EUPS_PATH["):-2])
+        if i >= len(els):
+            return ("unspecified",)     # "${EUPS_PATH}" is left, i.e. the whole path
+        text = els[i] + tail.replace("${PRODUCT_NAME}", info["name"])
+        return ("unspecified",) if (delim in text or text == "") else ("elems", [text])
     if m in LEGACY:         # older synonyms: rewritten when a table file is read, unknown otherwise
         if info["via"] != "file":
             return ("unspecified",) if key in case["env"] else ("error",)
@@ -469,6 +509,9 @@ def oracle(case, outs, info=None):
         den = resolve_den(spec["den"], info, case, delim)
         var = a["var"]
         if isinstance(out, str):
+            if out.startswith("EXC:"):      # neither done nor refused: an internal error
+                yield ("no_crash", None, "action %d: %s" % (i, out))
+                return
             expected_err = (den[0] == "error" and a["fwd"])
             if den[0] != "unspecified" and not expected_err and not (den[0] == "error" and not a["fwd"]):
                 yield ("no_error", None, "action %d raised %s" % (i, out))
@@ -584,7 +627,7 @@ def corpus_cases():
     return out
 
 
-CASE_KEYS = ("env", "acts", "specs", "delim", "product", "force", "oldenv", "aliases", "oldaliases")
+CASE_KEYS = ("env", "acts", "specs", "delim", "product", "force", "noaction", "oldenv", "aliases", "oldaliases")
 
 
 def evaluate(ctx, cases):
